@@ -113,7 +113,8 @@ def extra(case, lines, rot):
             hdr = ['Traceback (most recent call last):', 'Traceback (innermost last):'][sid % 2]
             wl = [hdr] + (['  File "<stdin>", line 1, in <module>'] if len(idxs) == 3 else []) + [final]
             if b['dir'] == 'opt':
-                wl[-1] = final.split(':')[0] + ': ...'
+                # +ELLIPSIS: the message elided; +IGNORE_EXCEPTION_DETAIL alone: another message altogether (only the type counts)
+                wl[-1] = final.split(':')[0] + (': ...' if 'ELLIPSIS' in work[ln] else ': quite another detail, v2.0')
         elif b['dir'] == 'first':
             wl = ['skipped output %d' % j for j in range(len(idxs))]
         else:
@@ -191,7 +192,7 @@ def run(tier):
     def sig_or_excluded(info):
         return sig(info)
     parselib._JOB['render_kw'] = {'dirs': {'first': lambda b, sid: SKIP_DIRS[sid % len(SKIP_DIRS)], 'last': '# doctest: +SKIP', 'neg': '# doctest: -SKIP',
-                                           'opt': lambda b, sid: OPT_DIRS[sid % len(OPT_DIRS)] if b['shape'] != 'exc' else ['# doctest: +ELLIPSIS', '# doctest: +IGNORE_EXCEPTION_DETAIL +ELLIPSIS'][sid % 2]},
+                                           'opt': lambda b, sid: OPT_DIRS[sid % len(OPT_DIRS)] if b['shape'] != 'exc' else ['# doctest: +ELLIPSIS', '# doctest: +IGNORE_EXCEPTION_DETAIL +ELLIPSIS', '# doctest: +IGNORE_EXCEPTION_DETAIL'][sid % 3]},
                                   'texts': parselib.PLAIN_TEXTS}
     try:
         for blocks, n, limit in BOUNDS[tier]:
